@@ -3,7 +3,7 @@ import re
 from vlib import core
 from vlib.core import hexs
 
-WRAP = "-Wl,--wrap=tls_record_send,--wrap=tls_record_recv,--wrap=sm2_do_ecdh,--wrap=tls_pre_master_secret_generate,--wrap=tls_record_set_handshake_certificate,--wrap=hkdf_expand"
+WRAP = "-Wl,--wrap=tls_record_send,--wrap=tls_record_recv,--wrap=sm2_do_ecdh,--wrap=tls_pre_master_secret_generate,--wrap=tls_record_set_handshake_certificate,--wrap=hkdf_expand,--wrap=tls_uint24array_to_bytes"
 PROTOS = ["tlcp", "tls12", "tls13"]
 VER = {"tlcp": "0101", "tls12": "0303", "tls13": "0304"}
 SUITE = {"tlcp": "e013", "tls12": "e011", "tls13": "00c6"}
@@ -116,13 +116,28 @@ def hs_cases(ctx):
                 for k, sc in enumerate(scripts):
                     seed += 1
                     split = 1 if k % 2 == 1 else 0
-                    cases.append(("hs %s %d %d %d %d %s" % (proto, auth, depth, seed, split, sc),
-                                  "hs:%s:auth%d:depth%d:%s" % (proto, auth, depth, "short-reads" if split else "whole-records"), proto))
+                    # trust stores / client-CA bundles with 1, 2, 3, 5 certificates and with five filling the 2048-byte buffer exactly
+                    nca = [1, 2, 3, 5, 0][(k + PROTOS.index(proto) + 2 * auth) % 5] if not thorough else [1, 2, 3, 5, 0][k % 5]
+                    cases.append(("hs %s %d %d %d %d %s %d" % (proto, auth, depth, seed, split, sc, nca),
+                                  "hs:%s:auth%d:depth%d:%s:nca=%s" % (proto, auth, depth, "short-reads" if split else "whole-records", nca if nca else "2048-bytes"), proto, sc))
     # TLS 1.3 writes around and beyond what conn->record holds (DESIGN section 5 #22, repaired by c5b289c:
     # tls13_send now fragments at 2^14 like tls_send)
     for w in ([16385, 18415, 18416, 20000, 50000] if not thorough else [16385, 18415, 18416, 18432, 20000, 30000, 50000]):
         seed += 1
-        cases.append(("hs tls13 0 1 %d 0 %s" % (seed, make_script(r, "tls13", [("c", w, 20000), ("s", w, 16384)])), "hs:tls13:large-write", "tls13"))
+        sc = make_script(r, "tls13", [("c", w, 20000), ("s", w, 16384)])
+        cases.append(("hs tls13 0 1 %d 0 %s" % (seed, sc), "hs:tls13:large-write", "tls13", sc))
+    # the CA-count dimension once more with mutual authentication for every protocol (CertificateRequest lists the names)
+    for proto in PROTOS:
+        for nca in (2, 3, 5, 0):
+            seed += 1
+            sc = make_script(r, proto, [("c", 100, 7), ("s", 300, 20000)])
+            cases.append(("hs %s 1 1 %d 0 %s %d" % (proto, seed, sc, nca), "hs:%s:auth1:nca=%s" % (proto, nca if nca else "2048-bytes"), proto, sc))
+    # object reuse: a second session on the SAME TLS_CONNECT objects after session 1 ended in each interesting state
+    for proto in PROTOS:
+        for i, state in enumerate(["partial", "rejected", "closed", "hsfail"]):
+            seed += 1
+            sc = make_script(r, proto, [("c", 100, 7), ("partial", "s", 200, 3, 50), ("s", 0, 7), ("c", 17000, 20000)])
+            cases.append(("hs2 %s %d %d %s %s" % (proto, (i + PROTOS.index(proto)) % 2, seed, state, sc), "reuse:%s:after-%s" % (proto, state), proto, sc))
     return cases
 
 
@@ -155,7 +170,7 @@ def run(ctx):
     cases = hs_cases(ctx)
     outs, err = core.run_lines(exe, [c[0] for c in cases], shards=min(8, len(cases)))
     mlines, back = [], []
-    for (line, cell, proto), out in zip(cases, outs):
+    for (line, cell, proto, script), out in zip(cases, outs):
         ctx.cov["evaluations"] += 1
         ctx.count("op:hs")
         rep = {"kind": "failing-input", "op": line, "impl": out[:2000], "variant": "asan"}
@@ -209,8 +224,9 @@ def run(ctx):
             cli = [x for (d, x) in cv[1:] if d == "s"]
             sh = [x for (d, x) in cv[1:] if d == "r"][0]
             mlines.append("obs13 %s %s %s %s %s" % (f["ecdh"].split("/")[0], cv[0][1], sh, ",".join(srv), ",".join(cli)))
+        if line.startswith("hs2 ") and f.get("first", "").count("1") < 2 and "hsfail" not in line:
+            ctx.violation(cell + ":first-session", "the first of the two sessions did not complete: %s [%s]" % (f.get("first"), line[:80]), rep); continue
         back.append((line, cell, proto, f, out, "obs"))
-        script = line.split(" ")[6]
         if script != "-":
             mlines.append("xfer %s %s" % (proto, script))
             back.append((line, cell, proto, f, out, "xfer"))
@@ -277,8 +293,8 @@ def replay(path):
     print("op:   ", op[:300]); print("impl: ", a[0][:1500])
     if err.strip():
         print("stderr:", err[-1500:])
-    if op.startswith("hs ") and op.split(" ")[6] != "-":
-        b, _ = core.run_lines(model, ["xfer %s %s" % (op.split(" ")[1], op.split(" ")[6])], shards=1)
+    if op.startswith(("hs ", "hs2 ")) and op.split(" ")[6 if op.startswith("hs ") else 5] != "-":
+        b, _ = core.run_lines(model, ["xfer %s %s" % (op.split(" ")[1], op.split(" ")[6 if op.startswith("hs ") else 5])], shards=1)
         print("model (data path):", b[0][:1500])
     elif not op.startswith("hs "):
         b, _ = core.run_lines(model, [op], shards=1)
@@ -293,6 +309,6 @@ def finish(ctx):
         "the rule of tls_encrypt_send 'no send while received data is still buffered' is respected by the scripts (reader drains before it writes), not modelled",
     ]
     return ctx.finish(level="proof",
-                      rule="unit ops tls_prf / tls13_hkdf_expand_label / tls13_hkdf_extract / tls13_compute_verify_data (label, length classes); sessions = 3 protocols x {server-auth, mutual-auth} x chain depth x {whole records, short reads}: handshake completion and equality of version, suite, master_secret, key_block, installed round keys, IVs, sequence numbers on both sides; passive-observer model over the client's record view re-derives keys and both Finished messages; scripted transfers (write sizes 1, 2^14-1, 2^14, 2^14+1, 50000, random x read sizes 1, 7, 16384, 20000, random, both directions) compared with the Stream model: sentlen of every call, length and hash of every read, record boundaries, sequence numbers",
+                      rule="unit ops tls_prf / tls13_hkdf_expand_label / tls13_hkdf_extract / tls13_compute_verify_data (label, length classes); sessions = 3 protocols x {server-auth, mutual-auth} x chain depth x {whole records, short reads} x trust stores / client-CA bundles of 1, 2, 3, 5 certificates and of exactly 2048 bytes; second sessions on reused TLS_CONNECT objects after session 1 ended with a partly read record / a rejected record / close_notify / a failed handshake: handshake completion and equality of version, suite, master_secret, key_block, installed round keys, IVs, sequence numbers on both sides; passive-observer model over the client's record view re-derives keys and both Finished messages; scripted transfers (write sizes 1, 2^14-1, 2^14, 2^14+1, 50000, random x read sizes 1, 7, 16384, 20000, random, both directions) compared with the Stream model: sentlen of every call, length and hash of every read, record boundaries, sequence numbers",
                       trusted=core.TRUSTED_COMMON + ["link-time wrappers (--wrap) around tls_record_send/recv, sm2_do_ecdh, tls_pre_master_secret_generate that record each endpoint's view; proxy thread between two socketpairs",
                                                      "Coq files: Tls/KeySched.v KeySchedInst.v Stream.v (models), Tls/KeySchedProofs.v StreamProofs.v (proofs), Tls/Record*.v, Hash/*, Cipher/SM4.v"])
